@@ -191,7 +191,27 @@ template <class Mesh> void HistRun<Mesh>::op_bad(R &r, const Op &q) {
         if (KID == 2) hfs = {hfs[0], hfs[1], hfs[2], hfs[4], hfs[3], hfs[5]};
         before = take_snap(*r.mesh);
         if (q.a[2] & 16) { for (int &h : hfs) h ^= 1; st.add("probe_bad_cell_all_sides_flipped"); }   // the mirror image is a closed surface too (still a valid argument)
-        int defect = q.a[1] % 8;
+        int defect = q.a[1] % 10;
+        if (defect >= 8) {
+            // an arbitrary list of free halffaces of the mesh as it is (faces built from halfedges of either orientation, 2-gons over duplicate
+            // edges, loops ...): numbering patterns the fresh template never has. A free face's two sides form a valid closed surface.
+            std::vector<int> freehf;
+            for (int f : m.live_uids(BF)) for (int sd = 0; sd < 2; ++sd) if (!r.hf_used(2 * f + sd)) freehf.push_back(2 * f + sd);
+            if (freehf.empty()) return;
+            hfs.clear();
+            int n = 1 + (q.a[2] % 4);
+            unsigned x = (unsigned)q.a[3];
+            for (int i = 0; i < n; ++i) { int h = freehf[x % freehf.size()]; x = x * 1103515245u + 12345u; if (std::find(hfs.begin(), hfs.end(), h) == hfs.end()) hfs.push_back(h); }
+            if (defect == 9 && hfs.size() == 1 && !r.hf_used(hfs[0] ^ 1) && (q.a[2] & 4)) hfs.push_back(hfs[0] ^ 1);
+            st.add("probe_bad_cell_arbitrary_free_halffaces");
+            if (KID != 0 && surface_closed(r, hfs)) {
+                // a closed surface of the right valence that is not a tetrahedron / hexahedron (two triangle "pillows", three quad pillows, lenses
+                // between duplicate faces): C11 reads "accepted exactly when closed and of the right valence", C15/C16 read "every cell has 4 / 8
+                // distinct vertices". The two statements disagree on this input, so it is not issued (DESIGN section 6).
+                std::set<int> dv; for (int h : hfs) for (int v : m.hf_vertices(h)) dv.insert(v);
+                if ((KID == 1 && hfs.size() == 4 && dv.size() != 4) || (KID == 2 && hfs.size() == 6 && dv.size() != 8)) { st.add("probe_kernel_closed_non_tet_hex_list_skipped"); return; }
+            }
+        }
         switch (defect) {
         case 6: { size_t i = (size_t)(q.a[2] % (int)hfs.size()), j = (i + 1 + (size_t)((q.a[2] / 32) % (int)(hfs.size() - 1))) % hfs.size(); hfs[i] = hfs[j]; } st.add("probe_bad_cell_same_size_duplicate"); break;   // one entry replaced by a copy of another (size preserved)
         case 7: hfs[(size_t)(q.a[2] % (int)hfs.size())] ^= 1; hfs[0] ^= (q.a[2] & 8) ? 1 : 0; break;            // wrong side(s), size preserved
